@@ -1,6 +1,7 @@
 /-
 `NWAffine` (model `Biogo.AlignAff.nwAlign`): the table it fills is the reference table of
-`Spec.AffineOpt` without the cross transitions, and its traceback reports pairs whose total
+`Spec.AffineOpt` — with the cross transitions since the repair of K1 (`cross = true`, the
+code), without them before (`cross = false`) — and its traceback reports pairs whose total
 is the best value of the last cell.  Core only.
 -/
 import Biogo.Proofs.AffineOpt
@@ -11,8 +12,9 @@ namespace Biogo.Proofs.NWAffine
 open Biogo.Spec.Alignment Biogo.AlignAff Biogo.Spec.AffineOpt Biogo.Proofs.AffineAln
 open Biogo.Proofs.AffineOpt Biogo.Proofs.AlignAffTable Biogo.Proofs.TraceSum
 
-/-- the class of alignments `NWAffine` explores: global, no gap next to an opposite gap -/
-def flN : Flags := ⟨false, false, false⟩
+/-- the class of alignments `NWAffine` explores: global; all of them since the repair of K1
+    (`cross = true`), before it those with no gap next to an opposite gap -/
+def flN (cross : Bool) : Flags := ⟨cross, false, false⟩
 
 theorem max2_none_left (v : V) : max2 none v = v := by cases v <;> rfl
 
@@ -20,60 +22,68 @@ theorem max3_none (a b : V) : max3 a b none = max2 a b := by
   rcases a with _ | x <;> rcases b with _ | y <;> simp [max3, max2, vgt]
   by_cases h1 : x < y <;> by_cases h2 : y < x <;> simp [h1, h2] <;> omega
 
-theorem gapVal_flN (o g : Int) (pd ps po : V) :
-    gapVal flN o g pd ps po = max2 (vadd pd (o + g)) (vadd ps g) := by
-  simp [gapVal, flN, max3_none]
+/-- the model's gap layer is the reference recurrence, for either fill -/
+theorem gapLayer_eq (fl : Flags) (o g : Int) (pd ps po : V) :
+    gapLayer fl.cross o g pd ps po = gapVal fl o g pd ps po := by
+  cases h : fl.cross <;> simp [gapLayer, gapVal, h, max3_none]
 
-theorem nwCell_eq (S : Matrix) (o : Int) : nwCell S o = optCell flN S o := by
+theorem gapVal_none_none (fl : Flags) (o g : Int) (ps : V) : gapVal fl o g none ps none = vadd ps g := by
+  cases h : fl.cross <;> cases ps <;> simp [gapVal, h, vadd, max3, vgt]
+
+theorem gapVal_some_none_none (fl : Flags) (o g d : Int) :
+    gapVal fl o g (some d) none none = some (d + (o + g)) := by
+  cases h : fl.cross <;> simp [gapVal, h, vadd, max3, vgt]
+
+theorem nwCell_eq (cross : Bool) (S : Matrix) (o : Int) : nwCell cross S o = optCell (flN cross) S o := by
   funext x pd pu lc y
-  simp only [nwCell, optCell, gapVal_flN]
+  have e1 := gapLayer_eq (flN cross) o (S x 0) pu.d pu.u pu.l
+  have e2 := gapLayer_eq (flN cross) o (S 0 y) lc.d lc.l lc.u
+  simp only [flN] at e1 e2
+  simp only [nwCell, optCell, e1, e2]
   simp [flN, emptyAt, max2_none_left]
 
-theorem row0Tail_eq (S : Matrix) (o : Int) :
-    ∀ (ys : List Nat) (l : V), row0Tail S l ys = optRow0Tail flN S o ⟨none, none, l⟩ ys := by
+theorem row0Tail_eq (cross : Bool) (S : Matrix) (o : Int) :
+    ∀ (ys : List Nat) (l : V), row0Tail S l ys = optRow0Tail (flN cross) S o ⟨none, none, l⟩ ys := by
   intro ys
   induction ys with
   | nil => intro l; rfl
   | cons y ys ih =>
     intro l
-    simp only [row0Tail, optRow0Tail, gapVal_flN]
-    have : max2 (vadd none (o + S 0 y)) (vadd l (S 0 y)) = vadd l (S 0 y) := max2_none_left _
-    rw [this, ih]
+    simp only [row0Tail, optRow0Tail, gapVal_none_none]
+    rw [ih]
     simp [flN, emptyAt]
 
-theorem nwRow0_eq (S : Matrix) (o : Int) (q : List Nat) :
-    nwRow0 S o q = origin :: optRow0Tail flN S o origin q := by
+theorem nwRow0_eq (cross : Bool) (S : Matrix) (o : Int) (q : List Nat) :
+    nwRow0 S o q = origin :: optRow0Tail (flN cross) S o origin q := by
   cases q with
   | nil => rfl
   | cons y ys =>
-    simp only [nwRow0, optRow0Tail, gapVal_flN, origin]
-    have : max2 (vadd (some 0) (o + S 0 y)) (vadd none (S 0 y)) = some (o + S 0 y) := by
-      simp [vadd, max2, vgt]
-    rw [this, row0Tail_eq S o]
+    simp only [nwRow0, optRow0Tail, origin, gapVal_some_none_none]
+    rw [row0Tail_eq cross S o]
     simp [flN, emptyAt]
 
-theorem fillRows_nw_eq (S : Matrix) (o : Int) (q : List Nat) :
+theorem fillRows_nw_eq (cross : Bool) (S : Matrix) (o : Int) (q : List Nat) :
     ∀ (xs : List Nat) (b : Bool) (prev : List Cell),
       (if b then prev.headD noCell = origin
        else (prev.headD noCell).d = none ∧ (prev.headD noCell).l = none) →
-      fillRows (nwFirst S o) (optCell flN S o) q b prev xs =
-        fillRows (optFirst flN S o) (optCell flN S o) q b prev xs := by
+      fillRows (nwFirst S o) (optCell (flN cross) S o) q b prev xs =
+        fillRows (optFirst (flN cross) S o) (optCell (flN cross) S o) q b prev xs := by
   intro xs
   induction xs with
   | nil => intro b prev _; rfl
   | cons x xs ih =>
     intro b prev h
-    have hfc : nwFirst S o b (prev.headD noCell) x = optFirst flN S o b (prev.headD noCell) x := by
+    have hfc : nwFirst S o b (prev.headD noCell) x = optFirst (flN cross) S o b (prev.headD noCell) x := by
       cases b with
       | true =>
         simp only [if_true] at h
         rw [h]
-        simp only [nwFirst, optFirst, gapVal_flN, origin, if_true]
-        simp [vadd, max2, vgt, flN, emptyAt]
+        simp only [nwFirst, optFirst, origin, if_true, gapVal_some_none_none]
+        simp [flN, emptyAt]
       | false =>
         simp only [Bool.false_eq_true, if_false] at h
-        simp only [nwFirst, optFirst, gapVal_flN, h.1, Bool.false_eq_true, if_false]
-        simp [vadd, max2_none_left, flN, emptyAt]
+        simp only [nwFirst, optFirst, h.1, h.2, Bool.false_eq_true, if_false, gapVal_none_none]
+        simp [flN, emptyAt]
     simp only [fillRows]
     rw [← hfc]
     congr 1
@@ -81,58 +91,59 @@ theorem fillRows_nw_eq (S : Matrix) (o : Int) (q : List Nat) :
     simp only [Bool.false_eq_true, if_false, List.headD_cons]
     cases b <;> simp [nwFirst]
 
-theorem nwRows_eq (S : Matrix) (o : Int) (r q : List Nat) :
-    nwRows S o r q = optRows flN S o r q := by
-  simp only [nwRows, optRows, nwRow0_eq, nwCell_eq]
+theorem nwRows_eq (cross : Bool) (S : Matrix) (o : Int) (r q : List Nat) :
+    nwRows cross S o r q = optRows (flN cross) S o r q := by
+  simp only [nwRows, optRows, nwRow0_eq cross, nwCell_eq]
   congr 1
   apply fillRows_nw_eq
   simp
 
 /-! ### what the traceback needs to know about the table -/
 
-structure NWFacts (T : Table) (S : Matrix) (o : Int) (r q : List Nat) : Prop where
+structure NWFacts (cross : Bool) (T : Table) (S : Matrix) (o : Int) (r q : List Nat) : Prop where
   inner : ∀ i j, i < r.length → j < q.length →
     T.at (i + 1) (j + 1) =
-      nwCell S o (r.getD i 0) (T.at i j) (T.at i (j + 1)) (T.at (i + 1) j) (q.getD j 0)
+      nwCell cross S o (r.getD i 0) (T.at i j) (T.at i (j + 1)) (T.at (i + 1) j) (q.getD j 0)
   orig : ∀ k v, (T.at 0 0).get k = some v → k = .m ∧ v = 0
   row0 : ∀ j, j < q.length → ∀ k v, (T.at 0 (j + 1)).get k = some v → k = .l
   col0 : ∀ i, i < r.length → ∀ k v, (T.at (i + 1) 0).get k = some v → k = .u
 
-theorem nwTable_at (S : Matrix) (o : Int) (r q : List Nat) (i j : Nat) (hj : j ≤ q.length) :
-    (nwTable S o r q).at i j = rowAt (optRows flN S o r q) i j := by
+theorem nwTable_at (cross : Bool) (S : Matrix) (o : Int) (r q : List Nat) (i j : Nat) (hj : j ≤ q.length) :
+    (nwTable cross S o r q).at i j = rowAt (optRows (flN cross) S o r q) i j := by
   unfold nwTable
   rw [nwRows_eq]
   exact mkTable_at _ _ i j
-    (rows_all_len _ _ q r _ (row0_ok flN S o q).1) (by omega)
+    (rows_all_len _ _ q r _ (row0_ok (flN cross) S o q).1) (by omega)
 
-theorem nwTable_cellOK (S : Matrix) (o : Int) (r q : List Nat) (i j : Nat)
+theorem nwTable_cellOK (cross : Bool) (S : Matrix) (o : Int) (r q : List Nat) (i j : Nat)
     (hi : i ≤ r.length) (hj : j ≤ q.length) :
-    CellOK flN S o (r.take i) (q.take j) ((nwTable S o r q).at i j) := by
-  rw [nwTable_at S o r q i j hj]
-  exact optRows_ok flN S o r q i j hi hj
+    CellOK (flN cross) S o (r.take i) (q.take j) ((nwTable cross S o r q).at i j) := by
+  rw [nwTable_at cross S o r q i j hj]
+  exact optRows_ok (flN cross) S o r q i j hi hj
 
-theorem nwTable_facts (S : Matrix) (o : Int) (r q : List Nat) : NWFacts (nwTable S o r q) S o r q where
+theorem nwTable_facts (cross : Bool) (S : Matrix) (o : Int) (r q : List Nat) :
+    NWFacts cross (nwTable cross S o r q) S o r q where
   inner := by
     intro i j hi hj
-    rw [nwTable_at S o r q (i + 1) (j + 1) (by omega), nwTable_at S o r q i j (by omega),
-      nwTable_at S o r q i (j + 1) (by omega), nwTable_at S o r q (i + 1) j (by omega), nwCell_eq]
-    exact rows_inner _ _ q r _ (row0_ok flN S o q).1 i j hi hj
+    rw [nwTable_at cross S o r q (i + 1) (j + 1) (by omega), nwTable_at cross S o r q i j (by omega),
+      nwTable_at cross S o r q i (j + 1) (by omega), nwTable_at cross S o r q (i + 1) j (by omega), nwCell_eq]
+    exact rows_inner _ _ q r _ (row0_ok (flN cross) S o q).1 i j hi hj
   orig := by
     intro k v h
-    have hc := nwTable_cellOK S o r q 0 0 (by omega) (by omega)
+    have hc := nwTable_cellOK cross S o r q 0 0 (by omega) (by omega)
     simp only [List.take_zero] at hc
-    have e := isOpt_unique (hc k) (cellOK_origin flN S o k)
+    have e := isOpt_unique (hc k) (cellOK_origin (flN cross) S o k)
     rw [e] at h
     cases k <;> simp [origin, Cell.get] at h
     exact ⟨rfl, h.symm⟩
   row0 := by
     intro j hj k v h
-    have hc := nwTable_cellOK S o r q 0 (j + 1) (by omega) (by omega)
+    have hc := nwTable_cellOK cross S o r q 0 (j + 1) (by omega) (by omega)
     simp only [List.take_zero] at hc
     cases k with
     | l => rfl
     | m =>
-      have e := isOpt_unique (hc .m) (isOpt_m_rnil flN S o _)
+      have e := isOpt_unique (hc .m) (isOpt_m_rnil (flN cross) S o _)
       rw [e] at h
       have : (List.take (j + 1) q).isEmpty = false := by
         cases q with
@@ -140,16 +151,16 @@ theorem nwTable_facts (S : Matrix) (o : Int) (r q : List Nat) : NWFacts (nwTable
         | cons y ys => simp
       simp [flN, emptyAt, this] at h
     | u =>
-      have e := isOpt_unique (hc .u) (isOpt_u_rnil flN S o _)
+      have e := isOpt_unique (hc .u) (isOpt_u_rnil (flN cross) S o _)
       rw [e] at h; cases h
   col0 := by
     intro i hi k v h
-    have hc := nwTable_cellOK S o r q (i + 1) 0 (by omega) (by omega)
+    have hc := nwTable_cellOK cross S o r q (i + 1) 0 (by omega) (by omega)
     simp only [List.take_zero] at hc
     cases k with
     | u => rfl
     | m =>
-      have e := isOpt_unique (hc .m) (isOpt_m_qnil flN S o _)
+      have e := isOpt_unique (hc .m) (isOpt_m_qnil (flN cross) S o _)
       rw [e] at h
       have : (List.take (i + 1) r).isEmpty = false := by
         cases r with
@@ -157,17 +168,35 @@ theorem nwTable_facts (S : Matrix) (o : Int) (r q : List Nat) : NWFacts (nwTable
         | cons y ys => simp
       simp [flN, emptyAt, this] at h
     | l =>
-      have e := isOpt_unique (hc .l) (isOpt_l_qnil flN S o _)
+      have e := isOpt_unique (hc .l) (isOpt_l_qnil (flN cross) S o _)
       rw [e] at h; cases h
 
 /-! ### the traceback: some `case` always matches and the reported scores telescope -/
 
+/-- a value of a gap layer comes from one of its predecessors: the match layer or (`cross`) the
+    other gap layer with `gapOpen`, or the same gap layer without -/
+theorem gapLayer_sel (cross : Bool) (o g : Int) (pd ps po : V) (v : Int)
+    (h : gapLayer cross o g pd ps po = some v) :
+    vadd pd (o + g) = some v ∨ vadd ps g = some v ∨ (cross = true ∧ vadd po (o + g) = some v) := by
+  cases cross with
+  | false =>
+    simp only [gapLayer, Bool.false_eq_true, if_false] at h
+    rcases (max2_spec (vadd pd (o + g)) (vadd ps g)).1 with e | e <;> rw [e] at h
+    · exact Or.inl h
+    · exact Or.inr (Or.inl h)
+  | true =>
+    simp only [gapLayer, if_true] at h
+    rcases (max3_spec (vadd pd (o + g)) (vadd ps g) (vadd po (o + g))).1 with e | e | e <;> rw [e] at h
+    · exact Or.inl h
+    · exact Or.inr (Or.inl h)
+    · exact Or.inr (Or.inr ⟨rfl, h⟩)
+
 /-- in an inner cell some `case` of the traceback switch matches the current value -/
-theorem exists_cand_of_inner {T : Table} {S : Matrix} {o : Int} {r q : List Nat} (i j : Nat)
+theorem exists_cand_of_inner {cross : Bool} {T : Table} {S : Matrix} {o : Int} {r q : List Nat} (i j : Nat)
     (hin : T.at (i + 1) (j + 1) =
-      nwCell S o (r.getD i 0) (T.at i j) (T.at i (j + 1)) (T.at (i + 1) j) (q.getD j 0))
+      nwCell cross S o (r.getD i 0) (T.at i j) (T.at i (j + 1)) (T.at (i + 1) j) (q.getD j 0))
     (k : Kind) (v : Int) (h : (T.at (i + 1) (j + 1)).get k = some v) :
-    ∃ cd ∈ cands false S o (r.getD i 0) (q.getD j 0), cd.1 = k ∧
+    ∃ cd ∈ cands cross false S o (r.getD i 0) (q.getD j 0), cd.1 = k ∧
       vadd ((predOf T (i + 1) (j + 1) cd.1).get cd.2.1) cd.2.2 = some v := by
   rw [hin] at h
   cases k with
@@ -175,36 +204,38 @@ theorem exists_cand_of_inner {T : Table} {S : Matrix} {o : Int} {r q : List Nat}
     simp only [Cell.get, nwCell] at h
     obtain ⟨hsel, _⟩ := max3_spec (T.at i j).d (T.at i j).u (T.at i j).l
     rcases hsel with e | e | e <;> rw [e] at h
-    · exact ⟨(.m, .m, S (r.getD i 0) (q.getD j 0)), by simp [cands], rfl, by simpa [predOf, Cell.get] using h⟩
-    · exact ⟨(.m, .u, S (r.getD i 0) (q.getD j 0)), by simp [cands], rfl, by simpa [predOf, Cell.get] using h⟩
-    · exact ⟨(.m, .l, S (r.getD i 0) (q.getD j 0)), by simp [cands], rfl, by simpa [predOf, Cell.get] using h⟩
+    · exact ⟨(.m, .m, S (r.getD i 0) (q.getD j 0)), by cases cross <;> simp [cands], rfl, by simpa [predOf, Cell.get] using h⟩
+    · exact ⟨(.m, .u, S (r.getD i 0) (q.getD j 0)), by cases cross <;> simp [cands], rfl, by simpa [predOf, Cell.get] using h⟩
+    · exact ⟨(.m, .l, S (r.getD i 0) (q.getD j 0)), by cases cross <;> simp [cands], rfl, by simpa [predOf, Cell.get] using h⟩
   | u =>
     simp only [Cell.get, nwCell] at h
-    obtain ⟨hsel, _⟩ := max2_spec (vadd (T.at i (j + 1)).d (o + S (r.getD i 0) 0)) (vadd (T.at i (j + 1)).u (S (r.getD i 0) 0))
-    rcases hsel with e | e <;> rw [e] at h
-    · exact ⟨(.u, .m, o + S (r.getD i 0) 0), by simp [cands], rfl, by simpa [predOf, Cell.get] using h⟩
-    · exact ⟨(.u, .u, S (r.getD i 0) 0), by simp [cands], rfl, by simpa [predOf, Cell.get] using h⟩
+    rcases gapLayer_sel cross o _ _ _ _ v h with e | e | ⟨hc, e⟩
+    · exact ⟨(.u, .m, o + S (r.getD i 0) 0), by cases cross <;> simp [cands], rfl, by simpa [predOf, Cell.get] using e⟩
+    · exact ⟨(.u, .u, S (r.getD i 0) 0), by cases cross <;> simp [cands], rfl, by simpa [predOf, Cell.get] using e⟩
+    · subst hc
+      exact ⟨(.u, .l, o + S (r.getD i 0) 0), by simp [cands], rfl, by simpa [predOf, Cell.get] using e⟩
   | l =>
     simp only [Cell.get, nwCell] at h
-    obtain ⟨hsel, _⟩ := max2_spec (vadd (T.at (i + 1) j).d (o + S 0 (q.getD j 0))) (vadd (T.at (i + 1) j).l (S 0 (q.getD j 0)))
-    rcases hsel with e | e <;> rw [e] at h
-    · exact ⟨(.l, .m, o + S 0 (q.getD j 0)), by simp [cands], rfl, by simpa [predOf, Cell.get] using h⟩
-    · exact ⟨(.l, .l, S 0 (q.getD j 0)), by simp [cands], rfl, by simpa [predOf, Cell.get] using h⟩
+    rcases gapLayer_sel cross o _ _ _ _ v h with e | e | ⟨hc, e⟩
+    · exact ⟨(.l, .m, o + S 0 (q.getD j 0)), by cases cross <;> simp [cands], rfl, by simpa [predOf, Cell.get] using e⟩
+    · exact ⟨(.l, .l, S 0 (q.getD j 0)), by cases cross <;> simp [cands], rfl, by simpa [predOf, Cell.get] using e⟩
+    · subst hc
+      exact ⟨(.l, .u, o + S 0 (q.getD j 0)), by simp [cands], rfl, by simpa [predOf, Cell.get] using e⟩
 
-theorem exists_cand {T : Table} {S : Matrix} {o : Int} {r q : List Nat} (F : NWFacts T S o r q)
+theorem exists_cand {cross : Bool} {T : Table} {S : Matrix} {o : Int} {r q : List Nat} (F : NWFacts cross T S o r q)
     (i j : Nat) (hi : i < r.length) (hj : j < q.length) (k : Kind) (v : Int)
     (h : (T.at (i + 1) (j + 1)).get k = some v) :
-    ∃ cd ∈ cands false S o (r.getD i 0) (q.getD j 0), cd.1 = k ∧
+    ∃ cd ∈ cands cross false S o (r.getD i 0) (q.getD j 0), cd.1 = k ∧
       vadd ((predOf T (i + 1) (j + 1) cd.1).get cd.2.1) cd.2.2 = some v :=
   exists_cand_of_inner i j (F.inner i j hi hj) k v h
 
-theorem loop_good (aware : Bool) {T : Table} {S : Matrix} {o : Int} {r q : List Nat} (F : NWFacts T S o r q)
-    (B : Int) :
+theorem loop_good (aware : Bool) {cross : Bool} {T : Table} {S : Matrix} {o : Int} {r q : List Nat}
+    (F : NWFacts cross T S o r q) (B : Int) :
     ∀ (fuel : Nat) (st : TB), Good T r.length q.length B st → st.i + st.j ≤ fuel →
-      ∃ st', tbLoop aware false T S o r q r.length q.length fuel st = .ok st' ∧
+      ∃ st', tbLoop aware cross false T S o r q r.length q.length fuel st = .ok st' ∧
         Good T r.length q.length B st' ∧ (st'.i = 0 ∨ st'.j = 0) := by
   intro fuel st hg hf
-  obtain ⟨st', h1, h2, h3⟩ := loop_good_gen aware false r.length q.length
+  obtain ⟨st', h1, h2, h3⟩ := loop_good_gen aware cross false r.length q.length
     (fun i j hi hj k v hv _ => exists_cand F i j hi hj k v hv) B fuel st hg hf
   refine ⟨st', h1, h2, ?_⟩
   rcases h3 with h | h | h
@@ -274,35 +305,33 @@ theorem exists_global_noAdj (r q : List Nat) (hr : r ≠ []) (hq : q ≠ []) :
 
 /-! ### `nwAlign` -/
 
-theorem cellBest_layer (e : Cell) :
-    e.get (if vgt e.u e.d then (if vgt e.l e.u then .l else .u) else (if vgt e.l e.d then .l else .m))
-      = cellBest e := by
-  unfold cellBest max3
+theorem cellBest_layer (e : Cell) : e.get (bestLayer e) = cellBest e := by
+  unfold cellBest max3 bestLayer
   cases h1 : vgt e.u e.d <;> simp only [Bool.false_eq_true, if_false, if_true]
   · cases h2 : vgt e.l e.d <;> simp [Cell.get]
   · cases h2 : vgt e.l e.u <;> simp [Cell.get]
 
 /-- The pairs reported by the model of `NWAffine` add up to the best value of the last cell,
-    which is the optimum over the global alignments without adjacent opposite gaps. -/
-theorem nwAlign_total (S : Matrix) (o : Int) (r q : List Nat) (hr : r ≠ []) (hq : q ≠ []) :
-    ∃ ps x, nwAlign S o r q = .ok ps ∧ globalOpt false S o r q = some x ∧ total ps = x := by
-  have F := nwTable_facts S o r q
-  have hbest : cellBest ((nwTable S o r q).at r.length q.length) = globalOpt false S o r q := by
-    rw [nwTable_at S o r q _ _ (Nat.le_refl _)]; rfl
+    which is the optimum over the global alignments — all of them for the fill of the code
+    (`cross = true`), those without adjacent opposite gaps for the fill before the repair of K1. -/
+theorem nwAlignT_total (cross : Bool) (S : Matrix) (o : Int) (r q : List Nat) (hr : r ≠ []) (hq : q ≠ []) :
+    ∃ ps x, (nwAlignT true cross S o r q).map (·.1) = .ok ps ∧ globalOpt cross S o r q = some x ∧
+      total ps = x := by
+  have F := nwTable_facts cross S o r q
+  have hbest : cellBest ((nwTable cross S o r q).at r.length q.length) = globalOpt cross S o r q := by
+    rw [nwTable_at cross S o r q _ _ (Nat.le_refl _)]; rfl
   obtain ⟨a, hga, hna⟩ := exists_global_noAdj r q hr hq
-  obtain ⟨x, hx, _⟩ := (globalOpt_isOpt false S o r q).1 a ⟨hga, Or.inr hna⟩
-  have hinit : Good (nwTable S o r q) r.length q.length x
+  obtain ⟨x, hx, _⟩ := (globalOpt_isOpt cross S o r q).1 a ⟨hga, Or.inr hna⟩
+  have hinit : Good (nwTable cross S o r q) r.length q.length x
       { i := r.length, j := q.length,
-        layer := (if vgt ((nwTable S o r q).at r.length q.length).u ((nwTable S o r q).at r.length q.length).d
-          then (if vgt ((nwTable S o r q).at r.length q.length).l ((nwTable S o r q).at r.length q.length).u then .l else .u)
-          else (if vgt ((nwTable S o r q).at r.length q.length).l ((nwTable S o r q).at r.length q.length).d then .l else .m)),
+        layer := bestLayer ((nwTable cross S o r q).at r.length q.length),
         last := .m, score := 0, maxI := r.length, maxJ := q.length, aln := [] } := by
     refine ⟨Nat.le_refl _, Nat.le_refl _, x, ?_, by simp [total]⟩
     simp only []
     rw [cellBest_layer, hbest, hx]
   obtain ⟨st', hloop, ⟨_, _, v, hv, hsum⟩, hend⟩ :=
     loop_good true F x (r.length + q.length) _ hinit (Nat.le_refl _)
-  unfold nwAlign nwAlignT
+  unfold nwAlignT
   simp only [hloop]
   by_cases hij : st'.i ≠ st'.j
   · rw [if_pos hij]
@@ -311,15 +340,15 @@ theorem nwAlign_total (S : Matrix) (o : Int) (r q : List Nat) (hr : r ≠ []) (h
     simp only [TB.emit, total_cons]
     by_cases hi0 : st'.i = 0
     · obtain ⟨j', hj'⟩ : ∃ j', st'.j = j' + 1 := ⟨st'.j - 1, by omega⟩
-      have hv' : (nwTable S o r q).at 0 (j' + 1) = (nwTable S o r q).at st'.i st'.j := by rw [hi0, hj']
+      have hv' : (nwTable cross S o r q).at 0 (j' + 1) = (nwTable cross S o r q).at st'.i st'.j := by rw [hi0, hj']
       have hl := F.row0 j' (by omega) st'.layer v (by rw [hv']; exact hv)
       simp only [hi0, if_true]
       rw [hl, hi0] at hv
-      show vget (((nwTable S o r q).at 0 st'.j).get .l) + _ = x
+      show vget (((nwTable cross S o r q).at 0 st'.j).get .l) + _ = x
       rw [hv]; simp only [vget]; omega
     · have hj0 : st'.j = 0 := by rcases hend with h | h; exact absurd h hi0; exact h
       obtain ⟨i', hi'⟩ : ∃ i', st'.i = i' + 1 := ⟨st'.i - 1, by omega⟩
-      have hv' : (nwTable S o r q).at (i' + 1) 0 = (nwTable S o r q).at st'.i st'.j := by rw [hj0, hi']
+      have hv' : (nwTable cross S o r q).at (i' + 1) 0 = (nwTable cross S o r q).at st'.i st'.j := by rw [hj0, hi']
       have hl := F.col0 i' (by omega) st'.layer v (by rw [hv']; exact hv)
       simp only [hi0, if_false]
       rw [hl] at hv
@@ -333,5 +362,16 @@ theorem nwAlign_total (S : Matrix) (o : Int) (r q : List Nat) (hr : r ≠ []) (h
     have := (F.orig st'.layer v hv).2
     simp only [TB.emit, total_cons]
     omega
+
+/-- `nwAlign`, the model of the code: the total is the optimum over *all* global alignments -/
+theorem nwAlign_total (S : Matrix) (o : Int) (r q : List Nat) (hr : r ≠ []) (hq : q ≠ []) :
+    ∃ ps x, nwAlign S o r q = .ok ps ∧ globalOpt true S o r q = some x ∧ total ps = x :=
+  nwAlignT_total true S o r q hr hq
+
+/-- the fill before the repair of K1: the total is the optimum over the global alignments
+    without adjacent opposite gaps -/
+theorem nwAlignNoCross_total (S : Matrix) (o : Int) (r q : List Nat) (hr : r ≠ []) (hq : q ≠ []) :
+    ∃ ps x, nwAlignNoCross S o r q = .ok ps ∧ globalOpt false S o r q = some x ∧ total ps = x :=
+  nwAlignT_total false S o r q hr hq
 
 end Biogo.Proofs.NWAffine
